@@ -15,6 +15,7 @@ import Restful.Gen.Facts
 import Restful.Lemmas.Panic
 import Restful.Lemmas.StateShape
 import Restful.Lemmas.TieImpFilters
+import Restful.Lemmas.TieImpFiltersDefault
 namespace Restful
 namespace Props
 open Gen Conc
@@ -125,3 +126,4 @@ end Restful
 -- the imperative functions this property's model rests on, tied to their statement-by-statement
 -- translation (tools/goimp, Gen/Imp.lean, regenerated on every run):
 -- also: Restful.TieImp.cors_filter
+-- also: Restful.TieImp.cors_filter_default_container
